@@ -15,6 +15,24 @@ struct Typed {
     regions: Vec<IpcSharedMemory>,
 }
 
+/// a value whose serialisation writes `0` bytes of output and then reports an error
+struct Failing(usize);
+impl Serialize for Failing {
+    fn serialize<S: serde::Serializer>(&self, serializer: S) -> Result<S::Ok, S::Error> {
+        use serde::ser::SerializeTuple;
+        let mut t = serializer.serialize_tuple(self.0 + 1)?;
+        for i in 0..self.0 {
+            t.serialize_element(&(i as u8))?;
+        }
+        Err(serde::ser::Error::custom("scripted failure"))
+    }
+}
+impl<'de> Deserialize<'de> for Failing {
+    fn deserialize<D: serde::Deserializer<'de>>(_: D) -> Result<Self, D::Error> {
+        Err(serde::de::Error::custom("Failing is send-only"))
+    }
+}
+
 fn watchdog_secs() -> u64 {
     std::env::var("VH_WATCHDOG").ok().and_then(|s| s.parse().ok()).unwrap_or(8)
 }
@@ -51,7 +69,7 @@ pub fn run() {
         let out = match level.as_str() {
             "platform" => platform_case(id, len, nsend, nrecv, nshm, &pat),
             "bytes" => bytes_case(id, len, &pat),
-            "typed" => typed_case(id, len, nsend, nrecv, nshm, &pat),
+            "typed" => typed_case(id, len, nsend, nrecv, nshm, &pat, a.get("prefail").map(|s| s == "1").unwrap_or(false)),
             _ => json!({"error":"level"}),
         };
         if out["recv"].get("hang").is_some() {
@@ -207,8 +225,14 @@ fn bytes_case(id: u64, len: usize, pat: &str) -> serde_json::Value {
            "send":send_res,"followup_ok":followup,"recv":recv_json})
 }
 
-fn typed_case(id: u64, len: usize, nsend: usize, nrecv: usize, nshm: usize, pat: &str) -> serde_json::Value {
+fn typed_case(id: u64, len: usize, nsend: usize, nrecv: usize, nshm: usize, pat: &str, prefail: bool) -> serde_json::Value {
     let data = payload(id, len);
+    // an earlier send on this thread whose serialisation failed half-way must not influence the next message
+    let mut prefail_res = serde_json::Value::Null;
+    if prefail {
+        let (ftx, _frx) = ipc::channel::<Failing>().unwrap();
+        prefail_res = json!(ftx.send(Failing(1 + (id as usize % 300))).is_err());
+    }
     let (tx, rx) = ipc::channel::<Typed>().unwrap();
     let mut kept_rx = Vec::new();
     let mut kept_tx = Vec::new();
@@ -282,5 +306,5 @@ fn typed_case(id: u64, len: usize, nsend: usize, nrecv: usize, nshm: usize, pat:
         let _ = h.join();
     }
     json!({"kind":"frag","level":"typed","id":id,"len":len,"wire_len":wire_len,"nsend":nsend,"nrecv":nrecv,"nshm":nshm,"faults":pat,
-           "send":send_res,"followup_ok":followup,"recv":recv_json})
+           "send":send_res,"followup_ok":followup,"recv":recv_json,"prefail_failed":prefail_res})
 }
